@@ -257,6 +257,22 @@ func VerifC03CloseDelay() {
 func vRequest(sf *obfs4ServerFactory, hourOffset int, name string) []byte {
 	clientKey, err := ntor.NewKeypair(true)
 	verifrt.Assume(err == nil)
+	if !verifrt.Symbolic() {
+		// native replay: the real clock cannot be moved, so the request stamped E+offset is
+		// built by the reference client (same wire format, lemma W1 of C06)
+		hour := time.Now().Unix()/3600 + int64(hourOffset)
+		xr := clientKey.Representative().Bytes()[:]
+		pad := make([]byte, clientMinPadLength)
+		for i := range pad {
+			pad[i] = byte(i*7 + len(name))
+		}
+		var blob []byte
+		blob = append(blob, xr...)
+		blob = append(blob, pad...)
+		blob = append(blob, refMark(sf.identityKey.Public(), sf.nodeID, xr)...)
+		blob = append(blob, refMac(sf.identityKey.Public(), sf.nodeID, blob, hour)...)
+		return blob
+	}
 	verifrt.SetClock(vNow + int64(hourOffset)*3600)
 	hs := newClientHandshake(sf.nodeID, sf.identityKey.Public(), clientKey)
 	blob, err := hs.generateHandshake()
@@ -292,6 +308,12 @@ func VerifC04Window() {
 		verifrt.Assert(err == nil, "previous, current and next hour are accepted")
 		want := strconv.FormatInt(vNow/3600+int64(d), 10)
 		verifrt.Assert(string(hs.epochHour) == want, "the reply is bound to the hour the client used")
+		// ... and the response MAC is computed over that hour (E' = E of the request), so a
+		// client whose clock is an hour off still verifies it
+		resp, gerr := hs.generateHandshake()
+		verifrt.Assume(gerr == nil)
+		rl := len(resp)
+		verifrt.Assert(verifrt.Equal(resp[rl-macLength:], refMac(sf.identityKey.Public(), sf.nodeID, resp[:rl-macLength], vNow/3600+int64(d))), "MAC_S covers the client's hour, not the server's")
 	} else {
 		verifrt.Assert(err != nil, "any other hour is rejected")
 	}
